@@ -95,6 +95,11 @@ func setValidator(mode string) *countingValidator {
 		cv := &countingValidator{}
 		binding.Validator = cv
 		return cv
+	case "offcnt": // switched off first (DisableValidator), then the application installs its own validator
+		binding.DisableValidator()
+		cv := &countingValidator{}
+		binding.Validator = cv
+		return cv
 	default:
 		binding.ResetValidator()
 	}
@@ -444,6 +449,31 @@ func runBind(carrier string, f []string) (ans string, oracle []string) {
 	}
 	if ok && val != "off" && !bTRule(t) {
 		oracle = append(oracle, fmt.Sprintf("C18 validated: bind through %s succeeded with V=%q, which violates the struct's rules (validator %s)", api, t.V, val))
+	}
+	// automatic binding reads the REQUEST only: the registry of named binders (binding.Register / Remove, used by
+	// GetBinder) has no say in it - the same JSON / XML bind with the json / xml entries taken out gives the same answer
+	// (only for the JSON / XML sources: their decoders are deterministic, formam's handling of keys that differ in case only is not)
+	isBodyMethod := method == "POST" || method == "PUT" || method == "PATCH"
+	if (api == "auto" || api == "pkgbind" || api == "ctxauto" || api == "ctxbind") && isBodyMethod &&
+		(strings.Contains(ctype, "/json") || strings.Contains(ctype, "/xml")) && !strings.Contains(ctype, "/x-www-form-urlencoded") &&
+		!strings.Contains(ctype, "/form-data") && carrierOK(carrier, api, method, ctype, rawq, body, hdr) {
+		saved := map[string]binding.Binder{}
+		for _, n := range []string{"json", "xml"} {
+			if b, has := binding.Binders[n]; has {
+				saved[n] = b
+			}
+		}
+		binding.Remove("json", "xml")
+		cv2 := setValidator(val)
+		t2 := &bT{}
+		ans2 := callBind(carrier, api, method, ctype, rawq, body, hdr, t2)
+		for n, b := range saved {
+			binding.Register(n, b)
+		}
+		_ = cv2
+		if ans2 != ans {
+			oracle = append(oracle, fmt.Sprintf("C18 source: bind through %s (method %q, Content-Type %q) answers %q, and %q once the named binders json and xml are removed from the registry", api, method, ctype, ans, ans2))
+		}
 	}
 	if cv != nil {
 		if ok && cv.calls != 1 {
@@ -1389,7 +1419,9 @@ func genBody(r *Rand, kind int, ctype string) string {
 	}
 }
 
-func genValidator(r *Rand) string { return r.Pick([]string{"std", "std", "cnt", "cnt", "off"}) }
+func genValidator(r *Rand) string {
+	return r.Pick([]string{"std", "std", "cnt", "cnt", "off", "offcnt"})
+}
 
 var autoApis = []string{"auto", "auto", "auto", "pkgbind", "pkgmust", "ctxbind", "ctxauto"}
 var oneApis = []string{
